@@ -23,6 +23,7 @@ type FnResult struct {
 	Obligations []*Obligation `json:"obligations"`
 	OutOfSubset []string      `json:"out_of_subset,omitempty"`
 	Error       string        `json:"error,omitempty"`
+	Drift       string        `json:"drift,omitempty"` // site-anchored clauses that could not be bound (the rest was verified)
 	Assumptions []string      `json:"assumptions,omitempty"`
 	Externs     []string      `json:"externs,omitempty"`
 	DefaultPure []string      `json:"default_pure,omitempty"`
@@ -87,9 +88,30 @@ func verifyFns(P *Program, S *Specs, E *Effects, fns []*ssa.Function, o RunOpts)
 var genMu sync.Mutex
 
 func verifyOne(P *Program, S *Specs, E *Effects, fn *ssa.Function, o RunOpts) (res *FnResult) {
+	res = verifyOneWith(P, S, E, fn, o, false)
+	if strings.HasPrefix(res.Error, "contract error") && strings.Contains(res.Error, "contract drift") {
+		// A site-anchored clause (at call / at return / calls) can no longer be bound to the code.
+		// Those clauses are undecided, but everything else about the function -- its panic-freedom
+		// obligations, its pre/postconditions, invariants and frames -- still is checkable: run
+		// again without the site-anchored clauses and keep the drift on record.
+		r2 := verifyOneWith(P, S, E, fn, o, true)
+		if r2.Error == "" {
+			r2.Drift = res.Error
+			return r2
+		}
+	}
+	return res
+}
+
+func verifyOneWith(P *Program, S *Specs, E *Effects, fn *ssa.Function, o RunOpts, stripSites bool) (res *FnResult) {
 	t0 := time.Now()
 	g := NewFnGen(P, S, E, fn)
 	g.sweep = o.Sweep
+	if stripSites && g.C != nil {
+		c2 := *g.C
+		c2.Calls, c2.ReturnAsserts, c2.MustCall = nil, nil, nil
+		g.C = &c2
+	}
 	res = &FnResult{Fn: g.name, Contract: g.C != nil}
 	func() {
 		// generation touches shared caches (Effects.D, globalCache): serialise it; solving is parallel
